@@ -136,7 +136,8 @@ SubMinuteVals == {Dt(D(2022, 5, 2), 45296, 5, o) : o \in {30, -59, 1, 3661, -452
 ZonePatterns == {<<"y","y","y","y","-","M","M","-","d","d"," ","H","H",":","m","m",":","s","s",".","n","n","n","n","n"," ">> \o zz :
                    zz \in {Rep("X", 4), Rep("X", 5), Rep("x", 4), Rep("x", 5), Rep("X", 3), Rep("x", 2)}}
 \* one-letter numeric fields followed by characters that are numeric in the Unicode sense but not digits: a non-digit ends the field
-LookalikeSeps == {<<"½">>, <<"Ⅳ">>, <<"²">>, <<"٣">>}
+\* (not superscript or Arabic-Indic digits: whether those count as "digits" the property does not say)
+LookalikeSeps == {<<"½">>, <<"Ⅳ">>, <<"⅛">>}
 LookalikePatterns == {a \o sp \o b : a \in {<<"M">>, <<"d">>, <<"D">>, <<"H">>, <<"k">>, <<"m">>, <<"s">>, <<"h">>, <<"K">>, <<"y">>},
                                       sp \in LookalikeSeps, b \in {<<"y","y","y","y">>, <<"s","s">>, <<>>}}
 C12(z) ==
